@@ -591,6 +591,20 @@ func (w *World) findFault(host, caller, kind string) *Fault {
 
 // replicate moves data along running replication threads of n. Call with w.Mu held.
 // SourceReachableLocked: can the receiver thread of n reach its source right now?
+// Snapshot: a copy of the node that does not share its channel with the live server (world locked)
+func (n *Node) Snapshot() Node {
+	c := *n
+	if n.Chan != nil {
+		ch := *n.Chan
+		c.Chan = &ch
+	}
+	if n.Lag != nil {
+		l := *n.Lag
+		c.Lag = &l
+	}
+	return c
+}
+
 func (w *World) SourceReachableLocked(n *Node) bool {
 	if n.Chan == nil {
 		return false
